@@ -1063,6 +1063,38 @@ type bnNested struct {
 	Rows [][]bnItem `json:"rows"`
 }
 
+// the rules sit behind an interface field that the handler fills with a pointer before binding
+type bnEnvelope struct {
+	Kind    string      `json:"kind"`
+	Payload interface{} `json:"payload"`
+}
+
+// recursive types: the rule is declared after / before the field that leads back to the type itself
+type bnNodeAfter struct {
+	Children []*bnNodeAfter `json:"children"`
+	N        int            `json:"n" vd:"$>0"`
+}
+
+type bnNodeBefore struct {
+	N        int             `json:"n" vd:"$>0"`
+	Children []*bnNodeBefore `json:"children"`
+}
+
+type bnNodeMap struct {
+	Children map[string]bnNodeMap `json:"children"`
+	N        int                  `json:"n" vd:"$>0"`
+}
+
+// mutually recursive pair, validated starting from the type that does not carry the rule
+type bnOrder struct {
+	Items []bnOrderItem `json:"items"`
+}
+
+type bnOrderItem struct {
+	N    int       `json:"n" vd:"$>0"`
+	Subs []bnOrder `json:"subs"`
+}
+
 func TestC20BinderNested(t *testing.T) {
 	rec := ev.New("binder-nested")
 	cases := []struct {
@@ -1074,6 +1106,14 @@ func TestC20BinderNested(t *testing.T) {
 		{"[]*struct", func() interface{} { return &bnPtrSlice{} }, func(n int) string { return fmt.Sprintf(`{"items":[{"n":%d}]}`, n) }},
 		{"map[string]*struct", func() interface{} { return &bnMap{} }, func(n int) string { return fmt.Sprintf(`{"by_key":{"k":{"n":%d}}}`, n) }},
 		{"[][]struct", func() interface{} { return &bnNested{} }, func(n int) string { return fmt.Sprintf(`{"rows":[[{"n":%d}]]}`, n) }},
+		// the receiver itself is a slice / a map of structs
+		{"*[]struct receiver", func() interface{} { return &[]bnItem{} }, func(n int) string { return fmt.Sprintf(`[{"n":1},{"n":%d}]`, n) }},
+		{"*map[string]*struct receiver", func() interface{} { return &map[string]*bnItem{} }, func(n int) string { return fmt.Sprintf(`{"k":{"n":%d}}`, n) }},
+		{"interface field holding *struct", func() interface{} { return &bnEnvelope{Payload: &bnItem{}} }, func(n int) string { return fmt.Sprintf(`{"kind":"k","payload":{"n":%d}}`, n) }},
+		{"recursive []*T, rule after", func() interface{} { return &bnNodeAfter{} }, func(n int) string { return fmt.Sprintf(`{"n":1,"children":[{"n":%d}]}`, n) }},
+		{"recursive []*T, rule before", func() interface{} { return &bnNodeBefore{} }, func(n int) string { return fmt.Sprintf(`{"n":1,"children":[{"n":%d}]}`, n) }},
+		{"recursive map[string]T", func() interface{} { return &bnNodeMap{} }, func(n int) string { return fmt.Sprintf(`{"n":1,"children":{"k":{"n":%d}}}`, n) }},
+		{"mutually recursive pair", func() interface{} { return &bnOrder{} }, func(n int) string { return fmt.Sprintf(`{"items":[{"n":1,"subs":[{"items":[{"n":%d}]}]}]}`, n) }},
 	}
 	for _, c := range cases {
 		for _, n := range []int{-1, 0, 1, 7} {
